@@ -59,8 +59,8 @@ def run_future_part(ctx):
     ctx.sample_trace(obs, 6)
     ctx.assumptions += [
         'Future timed waits, controlled runs: time is logical (a thread\'s elapsed time = sum of the timespecs of its expired '
-        'futex waits); wait_until runs on a test clock whose single reading is an input of the program; the microsecond value '
-        'logged for a timespec may be 1 short of the request (double seconds -> timespec truncation), tolerated as 1 us',
+        'futex waits); wait_until runs on a test clock whose single reading is an input of the program; requests are chosen so '
+        'that their microsecond value survives the double seconds -> timespec conversion exactly (no tolerance needed)',
         'Future timed waits, free-running: elapsed time measured outside the call with steady_clock, rounded down (R5); the '
         'kernel never expires a relative futex timeout early',
     ] + [a for a in fc.ASSUME if a not in ctx.assumptions]
